@@ -49,6 +49,8 @@ package main
 
 //@ func (*showCmd).Execute
 //@   loop 1 invariant len(keys) > 0 ==> len(info.Sets) > 0
+//@   loop 1 invariant forall q :: 0 <= q && q < len(keys) ==> has(info.Sets, keys[q])
+//@   loop 2 invariant forall q :: 0 <= q && q < len(keys) ==> has(info.Sets, keys[q])
 //@   ensures [C17] FSWCOUNT[0] == old(FSWCOUNT[0])
 //@   ensures [C17,C20] result != 0 ==> LOGGED[0] > old(LOGGED[0])
 
@@ -63,3 +65,30 @@ package main
 //@   requires out != nil && t != nil && ((v is *wire.Provider) || (v is *wire.Value) || (v is *wire.Field))
 //@ func mergeTypeSets$1
 //@   requires dst != nil && k != nil
+//@   frame forall q int :: q != dst ==> TMD[q] == old(TMD[q]) && TMV[q] == old(TMV[q])
+
+// ---- gather (wire show): safety invariants of the grouping search (C20) ----
+//@ define groupsOK(gs []outGroup) = forall i :: 0 <= i && i < len(gs) ==> gs[i].inputs != nil && gs[i].outputs != nil
+//@ define visOK(iv *typeutil.Map, n int) = iv != nil && forall k int :: TMD[iv][k] ==> (TMV[iv][k] is int) && 0 - 1 <= TMV[iv][k].(int) && TMV[iv][k].(int) < n
+//@ func gather
+//@   requires info != nil && has(info.Sets, key) && info.Sets[key] != nil
+//@   ensures groupsOK(result.0)
+//@   loop 2 invariant groupsOK(groups) && visOK(inputVisited, len(groups)) && set != nil && forall q :: 0 <= q && q < len(stk) ==> stk[q] != nil
+//@   loop 3 invariant groupsOK(groups) && visOK(inputVisited, len(groups)) && set != nil && forall q :: 0 <= q && q < len(stk) ==> stk[q] != nil
+//@   loop 4 invariant groupsOK(groups) && visOK(inputVisited, len(groups)) && set != nil && forall q :: 0 <= q && q < len(stk) ==> stk[q] != nil
+//@   loop 5 invariant groupsOK(groups) && visOK(inputVisited, len(groups)) && set != nil && forall q :: 0 <= q && q < len(stk) ==> stk[q] != nil
+//@   loop 6 invariant groupsOK(groups) && visOK(inputVisited, len(groups)) && set != nil && forall q :: 0 <= q && q < len(stk) ==> stk[q] != nil
+//@   loop 7 invariant groupsOK(groups) && visOK(inputVisited, len(groups)) && set != nil && forall q :: 0 <= q && q < len(stk) ==> stk[q] != nil
+//@   loop 8 invariant groupsOK(groups) && visOK(inputVisited, len(groups)) && set != nil && forall q :: 0 <= q && q < len(stk) ==> stk[q] != nil
+//@   loop 9 invariant groupsOK(groups) && visOK(inputVisited, len(groups)) && set != nil && forall q :: 0 <= q && q < len(stk) ==> stk[q] != nil
+//@   loop 10 invariant groupsOK(groups)
+//@   loop 4 invariant allPresent ==> forall j :: 0 <= j && j < done ==> TMD[inputVisited][tid(p.Args[j].Type)]
+//@   loop 6 invariant in != nil && in != inputVisited && forall j :: 0 <= j && j < len(p.Args) ==> TMD[inputVisited][tid(p.Args[j].Type)]
+//@ func mergeTypeSets
+//@   requires dst != nil
+//@   nullable src
+//@   modifies TMD[dst], TMV[dst]
+//@ func sameTypeKeys
+//@   nullable a b
+//@ func gather$1
+//@   requires k != nil
